@@ -9,7 +9,7 @@ LEAN_MODULES = ['XmlDiffModel.Props.C17']
 SOURCES = ['diff.Differ.diff', 'diff.Differ.align_children', 'diff.Differ.update_node_attr', 'diff.Differ.update_node_text']
 RULE = 'Differ cluster: counting bounds on the real script against |L|, |R| and attribute counts; strict replay with per-action change detection on the id-tree and on the document value; created nodes never deleted; on namespaced documents (stream ns, the two documents may bind one URI to different prefixes) every non-move, non-namespace action of the real script must change the document when applied by the real patcher. Non-trivial = script has >= 2 action types or a move.'
 ASSUMPTIONS = [
-    "documents of the namespace-free C01 domain (elements, attributes, text, tails, comments); namespaced documents are exercised by the oracle streams only",
+    "documents of the C01 domain; namespaced documents (stream nsm) are compared with the model too, the step name of a Clark-notation tag being the prefix the working copy uses for its URI; only the namespace prologue (InsertNamespace / DeleteNamespace, prefix registration) is outside the model and exercised by the oracle stream ns",
     "similarity values (difflib.SequenceMatcher, sqrt) are an oracle recorded from the real node_ratio for every comparable pair",
 ]
-_cluster.make(sys.modules[__name__], 'C17', {'U5','E2E'}, [('main',3500),('wide',300),('ns',800)], [('main',60000),('simple',20000),('wide',5000),('ns',20000)])
+_cluster.make(sys.modules[__name__], 'C17', {'U5','E2E'}, [('main',3500),('wide',300),('ns',800),('nsm',600)], [('nsm',12000),('main',60000),('simple',20000),('wide',5000),('ns',20000)])
